@@ -341,5 +341,23 @@ def run(ctx, rep, tier):
                       f"`.len` is rendered as `{txt}`: a uint32_t counter (capacity >= 65536) makes the surrounding arithmetic unsigned - `s.len - 1` is 4294967295 for an empty string, -1 for smaller capacities")
     if nlen < 1:
         raise AnalysisError("C14.k: no rendering of StringLengthIntegerExpr found")
+    rep.rule("C14.l", "a constant is refused only where C's conversion to the declared width and signedness is not available: outside [-(2^(b-1)), 2^(b-1)-1] for signed, [-(2^(b-1)), 2^b-1] for unsigned outputs")
+    q = "CodegenCtx._check_constant_fits"
+    if ctx.model.has_func(q):
+        rng = [n for n in ast.walk(ctx.model.func(q)) if isinstance(n, ast.If) and any(isinstance(x, ast.Raise) for x in n.body) and "constant" in ast.unparse(n.test)]
+        ok = len(rng) == 1 and ast.unparse(rng[0].test) == "not -(1 << bits - 1) <= constant < 1 << (bits - 1 if target.int_signed else bits)" and \
+            ctx.model.has(q, "bits = 8 * (target.int_width or 4)")
+        # decide the bound expression over both signedness values and the four widths
+        if ok:
+            for signed in (True, False):
+                for width in (1, 2, 4, 8, None):
+                    bits = 8 * (width or 4)
+                    lo, hi = -(1 << bits - 1), (1 << (bits - 1 if signed else bits)) - 1
+                    want = (-(2 ** (bits - 1)), 2 ** (bits - 1) - 1) if signed else (-(2 ** (bits - 1)), 2 ** bits - 1)
+                    ok = ok and (lo, hi) == want
+        rep.check(ok, "C14.l", q, "range = what the C compiler converts without -Woverflow (negative constants wrap into unsigned outputs)",
+                  "the constant range test changed: either constants the C compiler refuses are accepted again, or well-defined conversions (`u = [0 - 1]` into an unsigned output) are refused")
+    else:
+        rep.ok("C14.l", "CodegenCtx", "no constant range test (constants are left to the C compiler: C11.n)", nontrivial=False)
     delegate(ctx, rep, tier, "C01", ("C01.l",), "C14.i", "an expression's value is what the procedural reading gives: groups of assignments repeated per byte are refused when one reads what another writes (expression reads include index and operand reads)")
     delegate(ctx, rep, tier, "C13", ("C13.g",), "C14.j", "an expression passed as a macro argument means the same in every context it is used in (assignment, append, condition): all parse entry points switch to its call-site scope")
